@@ -96,8 +96,10 @@ AckDup == /\ Acked # {}
           /\ \E p \in {IF Refunds # {} /\ Pick(1..3) > 1 THEN Pick(Refunds) ELSE Pick(Acked)} : \E k \in {Pick(GoodAckHeights(p))} : \E s \in {Pick(Signers)} :
                 Ack(p.src, p, WrittenCode(p), "none", "none", k, "ok", s)
 
+RetoggleR == \E c \in {Pick(Chains)} : \E d \in {Pick(Chains \ {c})} : Retoggle(c, d)
+
 Useful  == CommitUseful \/ UpdateUseful \/ RecvUseful \/ AckUseful \/ SendR \/ SendBackR
-Hostile == SendR \/ CommitR \/ UpdateR \/ RecvGood \/ RecvR \/ RecvDup \/ AckGood \/ AckR \/ RecvForged \/ AckForged \/ AckForgedCode \/ AckDup
+Hostile == SendR \/ CommitR \/ UpdateR \/ RecvGood \/ RecvR \/ RecvDup \/ AckGood \/ AckR \/ RecvForged \/ AckForged \/ AckForgedCode \/ AckDup \/ RetoggleR
 
 MInit == Init /\ hist = << >>
 
